@@ -3255,7 +3255,7 @@ func (bc *Blockchain) GetTestHistoricVM(t trigger.Type, tx *transaction.Transact
 	}
 	var mode = mpt.ModeAll
 	if bc.config.RemoveUntraceableBlocks {
-		if b.Index < bc.BlockHeight()-bc.GetMaxTraceableBlocks() {
+		if h, mtb := bc.BlockHeight(), bc.GetMaxTraceableBlocks(); h > mtb && b.Index < h-mtb {
 			return nil, fmt.Errorf("state for height %d is outdated and removed from the storage", b.Index)
 		}
 		// Node records carry reference counters in this configuration, but it's
